@@ -662,11 +662,14 @@ static Cfg gen_cfg(Rng& rng, std::string const& mode) {
 	return c;
 }
 
-static void run_generated(std::uint64_t seed, long nprog, std::string const& mode) {
+static void run_generated(std::uint64_t seed, long nprog, std::string const& mode_arg) {
 	Rng rng(seed);
 	long p = 0;
+	// mode = <hist|faults|alloc|trivial>[<maxops>]: the suffix bounds the history length (default 8; the thorough tier uses 20)
+	std::string mode = mode_arg; int maxops = 8;
+	{ std::size_t d = mode.find_first_of("0123456789"); if(d != std::string::npos) { maxops = std::atoi(mode.c_str() + d); mode = mode.substr(0, d); } }
 	char const* mo = std::getenv("VERIF_LEDGER_MAXOPS");
-	int maxops = mo ? std::atoi(mo) : 8;
+	if(mo) maxops = std::atoi(mo);
 	char const* fx = std::getenv("VERIF_LEDGER_FIXED");
 	std::string fixes = (fx && *fx) ? fx : "-";
 	while(p < nprog) {
